@@ -12,7 +12,7 @@ from mc.ref import ips as refips
 
 ID = "C16"
 LEVEL = "exploration"
-LEVEL_TEXT = ("Complete enumeration, for 13 base programs that together contain every statement kind and every operand shape (generated "
+LEVEL_TEXT = ("Complete enumeration, for 14 base programs that together contain every statement kind and every operand shape (generated "
               "programs plus the repository's sample source), of every applicable site of every listed presentation change: blank line, "
               "full-line ; comment, one-line and multi-line /* */ comment before each line; indentation by spaces or a tab, trailing "
               "spaces, end-of-line ; comment on each line; no newline after the last line; a space before/after every operator and comma; a space after an opening and "
@@ -85,6 +85,31 @@ PUSH_PULL_PRELUDE = ("source = 0x7E1234\nvramptr = 0x2000\ncount = 0x40\nmode = 
 FILES = dict(c12.FILES, **{"t.tbl": "10=a\n1112=ab\n20=b\n", "p.ips": refips.build([(0x100, b"\x01\x02", "plain"), (0x200, (3, 0x55), "rle")])})
 
 
+# a hand-written program for layouts the renderer never produces: `else` on its own line, a `.map` line directly followed by
+# a line that starts with an identifier, a label directly after a `.map`
+CORNERS = """.map identifier=1 bank_range=0x00, 0x6f addr_range=0x8000, 0xffff mask=0x8000
+foo = 1
+.map identifier=2 bank_range=0x7e, 0x7f addr_range=0x0000, 0xffff mask=0x10000 writable=1
+*=0x018000
+start:
+.if foo {
+    lda.b #0x01
+}
+else {
+    lda.b #0x02
+}
+.if foo - 1 {
+    .db 0x11
+}
+else {
+    .db 0x22
+}
+    lda (0x03,s),y
+    lda (0x12,x)
+.dl start
+"""
+
+
 def base_programs():
     progs = []
     defs = (("FOO", "5"), ("BAR", "0x3"))
@@ -99,6 +124,7 @@ def base_programs():
         files = dict(FILES)
         files.update(render.files_of(prog))
         out.append((name, render.source(prog), files))
+    out.append(("corners", CORNERS, dict(FILES)))
     import os
     sample = os.path.join(impl.REPO, "tests", "samples", "push_pull.s")
     try:
@@ -178,8 +204,6 @@ def line_sites(line):
                 sites.append((a + m.start() + 1, "space-after-open-bracket", None))
             for m in re.finditer(r"[)\]]", seg):
                 col = a + m.start()
-                if re.search(r",\s*[xysXYS]$", line[:col]):
-                    continue  # between an inner index register and ')' : not in the property
                 sites.append((col, "space-before-close-bracket", None))
             for m in re.finditer(r",\s*([xys])(?=\s*[)\]]|\s*$|\s*,|\s*;)", seg):
                 sites.append((a + m.start(1), "upper-index", m.group(1)))
@@ -286,8 +310,9 @@ def top_level_runs(lines):
     for k, line in enumerate(lines):
         for a, b in outside_quotes(line):
             depth += line[a:b].count("{") - line[a:b].count("}")
-        if depth == 0:
-            bounds.append(k + 1)
+        nxt = lines[k + 1].strip() if k + 1 < len(lines) else ""
+        if depth == 0 and not (nxt.startswith("else") or nxt.startswith(".else")):
+            bounds.append(k + 1)  # (a line that starts with `else` continues the .if statement of the previous line)
     runs = []
     for x in range(len(bounds)):
         for y in range(x + 1, len(bounds)):
@@ -303,7 +328,7 @@ def with_include(lines, run, fname="moved.s"):
 # ---- cases --------------------------------------------------------------------------------
 
 def bound(tier):
-    return ("13 base programs; every single edit; " + ("all unordered pairs of edits and all triples within a 3-line window" if tier == "thorough" else
+    return ("14 base programs; every single edit; " + ("all unordered pairs of edits and all triples within a 3-line window" if tier == "thorough" else
             "all pairs within an 8-line window (all pairs for programs with <= 150 sites)") + "; every top-level run moved to an .include file, alone and "
             "combined with every in-line edit")
 
